@@ -840,13 +840,16 @@ fn gen_scenario(rng: &mut Rng, report: &mut Report) -> Scenario {
         all
     };
     let max_rows = *rng.pick(&[1usize, 2, 4]);
+    let variant_pair: u8 = if rng.chance(1, 4) { *rng.pick(&[1u8, 4, 2, 3]) } else { 0 };
     let writers: Vec<Vec<BatchSpec>> = (0..k)
         .map(|_| {
             let n = rng.range_usize(1, 4);
             (0..n)
                 .map(|_| {
                     let kind = *rng.pick(&kinds);
-                    gen_batch(rng, kind, base, max_rows)
+                    // one scenario in four mixes schemas that differ only in nullability / metadata
+                    let variant = if variant_pair > 0 && rng.chance(1, 2) { variant_pair } else { 0 };
+                    gen_batch_v(rng, kind, variant, base, max_rows)
                 })
                 .collect()
         })
@@ -875,7 +878,7 @@ fn gen_scenario(rng: &mut Rng, report: &mut Report) -> Scenario {
 /// crash-restart-crash cases
 fn corpus() -> Vec<(&'static str, Scenario, Vec<Label>)> {
     let row = |ts: i64, m: u8| RowSpec { ts, metric: Some(m), fval: Some(2.5f64.to_bits()), ival: Some(7), host: Some(1), region: None };
-    let b = |kind: u8, tss: &[i64]| BatchSpec { kind, rows: tss.iter().enumerate().map(|(i, t)| row(*t, i as u8 % 3)).collect() };
+    let b = |kind: u8, tss: &[i64]| BatchSpec { kind, variant: 0, rows: tss.iter().enumerate().map(|(i, t)| row(*t, i as u8 % 3)).collect() };
     let big = 1usize << 40;
     vec![
         // K1: writer 0's threshold flush is parked at its PUT; writer 1's write is WAL-appended (seq 2),
